@@ -131,9 +131,35 @@ Definition tmsg_set_labels (m : tmsg) (d : dict lval) : tmsg := mkTMsg d (tm_typ
 Definition dict_setitem {A} (d : dict A) (k : key) (v : A) : dict A := dset k v d.
 (* the statement monad PyStm.v without observable effects; which exception propagates is not modelled (Labels.v: None) *)
 Definition LM (A : Type) : Type := M Empty_set unit A.
-(*  `except Exception`: everything that is raised here (ValueError, KeyError, TypeError, binascii.Error, ...) is one *)
-Definition is_exception (x : unit) : bool := true.
-Definition try_else {R A B} := @try_else_on Empty_set unit R A B is_exception.
-Definition try_except {R A} := @try_except_on Empty_set unit R A is_exception.
+(*  `except Exception`: everything that is raised here (ValueError, KeyError, TypeError, binascii.Error, NoResultError, ...) is one *)
+Definition is_exception {X : Type} (x : X) : bool := true.
+Definition try_else {E X R A B} := @try_else_on E X R A B is_exception.
+Definition try_except {E X R A} := @try_except_on E X R A is_exception.
 (*  a call that returns a value or raises *)
 Definition lift_opt {A} (o : option A) : LM A := match o with Some a => ret a | None => raise tt end.
+
+(* ---------------------------------------------------------------- the send side: AsyncKicker._prepare_message's label loop
+   (no effects: LM) and Context.requeue (harness/pygal_labels_send.py) *)
+(*  d.get(k, dflt) *)
+Definition dict_get_default {A} (k : key) (dflt : A) (d : dict A) : A := match dget k d with Some v => v | None => dflt end.
+(*  int(v) of a label value is Labels.py_int (None = raises, or a float / bytes value: outside that model) *)
+
+(* what Context.requeue does that can be observed, and how it ends *)
+Inductive qeff :=
+| ELabels (L : dict lval)      (* the received message's OWN label dict was updated in place: its content now *)
+| EKickW (w : wire).           (* broker.kick(formatter.dumps(message)): labels / labels_types of the message that is sent *)
+Inductive qexc :=
+| XRaised                      (* an exception of a call (int() of a label that is no number, ...) *)
+| XNoResult.                   (* raise NoResultError *)
+Definition QM (A : Type) : Type := M qeff qexc A.
+Definition qlift_opt {A} (o : option A) : QM A := match o with Some a => ret a | None => raise XRaised end.
+(*  message.labels[k] = v  on the received message *)
+Definition q_setitem_labels (m : tmsg) (k : key) (v : lval) : QM tmsg :=
+  emit (ELabels (tm_labels (tmsg_setitem_labels m k v))) ;;; ret (tmsg_setitem_labels m k v).
+(*  TaskiqMessage(task_id=.., task_name=.., labels=l, labels_types=t, args=.., kwargs=..): the other four fields are copies
+    of the received message's and are not looked at *)
+Definition new_message (l : dict pstr) (t : dict N) : wire := mkWire l (Some t).
+(*  context.broker, broker.formatter, message.task_id / .task_name / .args / .kwargs: objects this unit does not look into *)
+Definition not_read {A} (x : A) : unit := tt.
+(*  await broker.kick(broker.formatter.dumps(message)): the send goes through (a failing broker is C10's subject) *)
+Definition q_kick (w : wire) : QM unit := emit (EKickW w).
